@@ -145,3 +145,87 @@ def removal_discharged(fn, rm, chain, discharge_nodes, allowed_exits=()):
         if region_uncovered(fn, nx.node, dis, cuts=c2) is None:
             return []
     return [(n, fn.witness_path([rm.node], [n], avoid=dis, cut=cuts, after=True)) for n in bad]
+
+
+# ---------------------------------------------------------------------------------------
+# value helpers shared by the guard / closure rules
+
+def proj_roots(fn, o):
+    """projection strings of the parameter roots of operand o"""
+    return {r[2] for r in fn.roots(o) if r[0] == "param"}
+
+
+def from_field(fn, o, field):
+    return any(("." + field) in p for p in proj_roots(fn, o))
+
+
+def slice_locals(fn, o, depth=0):
+    """locals reachable backwards from operand o through plain copies/moves"""
+    p = o.get("c") or o.get("m")
+    if p is None:
+        return set()
+    out = {p[0]}
+    work = [p[0]]
+    while work:
+        l = work.pop()
+        for node, kind, pl in fn.defs().get(l, []):
+            if kind == "assign" and pl["rv"]["r"] == "use":
+                q = pl["rv"]["o"].get("c") or pl["rv"]["o"].get("m")
+                if q is not None and q[0] not in out:
+                    out.add(q[0])
+                    work.append(q[0])
+    return out
+
+
+def polarity(fn, o, depth=0):
+    """(sign, Call) : operand o holds (sign=+1) or the negation of (sign=-1) the boolean result of Call"""
+    p = o.get("c") or o.get("m")
+    if p is None or len(p) != 1 or depth > 8:
+        return None
+    d = fn.single_def(p[0])
+    if d is None:
+        return None
+    node, kind, pl = d
+    if kind == "call":
+        from cfg import Call
+        return (1, Call(fn, node, pl))
+    if kind == "assign":
+        rv = pl["rv"]
+        if rv["r"] == "use":
+            return polarity(fn, rv["o"], depth + 1)
+        if rv["r"] == "un" and rv["op"] == "Not":
+            r = polarity(fn, rv["o"], depth + 1)
+            return None if r is None else (-r[0], r[1])
+    return None
+
+
+def closure_returns(fn):
+    """polarity of the value returned by a small closure body: [(sign, Call)] over all writes of _0"""
+    out = []
+    for node, kind, pl in fn.defs().get(0, []):
+        if node not in fn.live_nodes():
+            continue
+        if kind == "call":
+            from cfg import Call
+            out.append((1, Call(fn, node, pl)))
+        elif kind == "assign":
+            rv = pl["rv"]
+            if rv["r"] == "use":
+                out.append(polarity(fn, rv["o"]))
+            elif rv["r"] == "un" and rv["op"] == "Not":
+                r = polarity(fn, rv["o"])
+                out.append(None if r is None else (-r[0], r[1]))
+            else:
+                out.append(None)
+    return out
+
+
+def closure_arg(fn, call, suffix):
+    for a in call.args[1:]:
+        p = a.get("c") or a.get("m")
+        if p is None:
+            continue
+        for node, kind, pl in fn.defs().get(p[0], []):
+            if kind == "assign" and pl["rv"]["r"] == "agg" and suffix in (pl["rv"].get("closure") or ""):
+                return True
+    return False
